@@ -439,7 +439,7 @@ func ruleLatestWinsArgmax(r *Report) {
 					return false
 				}
 				ia, okI := u.X.(*ssa.IndexAddr)
-				return okI && paramOrigin(ia.X) != nil && paramOrigin(ia.X).Name() == "context"
+				return okI && paramOrigin(ia.X) != nil && refName(paramOrigin(ia.X)) == "context"
 			}
 			isMax := func(v ssa.Value) bool { _, okP := v.(*ssa.Phi); return okP }
 			for _, v := range ifCmpForms(b) {
@@ -455,14 +455,14 @@ func ruleLatestWinsArgmax(r *Report) {
 			ret := rs.Instr.(*ssa.Return)
 			if u, okU := ret.Results[1].(*ssa.UnOp); okU && u.Op == token.MUL {
 				if ia, okI := u.X.(*ssa.IndexAddr); okI {
-					if po := paramOrigin(ia.X); po != nil && po.Name() == "values" {
+					if po := paramOrigin(ia.X); po != nil && refName(po) == "values" {
 						if _, isPhi := ia.Index.(*ssa.Phi); isPhi {
 							okRes = true
 						}
 					}
 				}
 			}
-			if po := paramOrigin(ret.Results[0]); po == nil || po.Name() != "key" {
+			if po := paramOrigin(ret.Results[0]); po == nil || refName(po) != "key" {
 				okRes = false
 			}
 		}
@@ -1983,7 +1983,7 @@ func ruleReadCheckOptionHonoured(r *Report) {
 				return
 			}
 			for i, pr := range sc.Params {
-				if pr.Name() != "skipHashCheck" {
+				if refName(pr) != "skipHashCheck" {
 					continue
 				}
 				n++
@@ -1997,7 +1997,7 @@ func ruleReadCheckOptionHonoured(r *Report) {
 				if _, f, _, isF := loadOfField(a); isF && (f == "skipHashCheckOnRead" || f == "skipHashCheck") {
 					good = true
 				}
-				if pa, isP := a.(*ssa.Parameter); isP && pa.Name() == "skipHashCheck" {
+				if pa, isP := a.(*ssa.Parameter); isP && refName(pa) == "skipHashCheck" {
 					good = true
 				}
 				if good {
@@ -2029,7 +2029,7 @@ func ruleReadCheckOptionHonoured(r *Report) {
 			if _, lf, _, isL := loadOfField(st.Val); isL && (lf == "skipHashCheckOnRead" || lf == "skipHashCheck") {
 				good = true
 			}
-			if pa, isP := st.Val.(*ssa.Parameter); isP && pa.Name() == "skipHashCheck" {
+			if pa, isP := st.Val.(*ssa.Parameter); isP && refName(pa) == "skipHashCheck" {
 				good = true
 			}
 			if good {
@@ -2236,7 +2236,7 @@ func ruleFitsWithoutSum(r *Report) {
 	isSize := func(v ssa.Value) bool {
 		return valueDependsOn(v, func(x ssa.Value) bool {
 			pa, ok := x.(*ssa.Parameter)
-			return ok && pa.Parent() == fn && strings.HasPrefix(pa.Name(), "payloadSize")
+			return ok && pa.Parent() == fn && strings.HasPrefix(refName(pa), "payloadSize")
 		})
 	}
 	bad := ""
